@@ -273,6 +273,15 @@ def gen_sweep_base(seed, corpus, ref, fam, fam2=None):
         perm = list(pools[i % len(pools)]) if not twin else list(same)
         rng.shuffle(perm)
         clients.append(perm[:rng.randint(2, 4)])
+    if QUICK[0]:
+        # quick tier: a sweep scenario stays below ~350 k line events (a 700 k-event focus run takes 19 s and overruns the phase)
+        def _h(op_):
+            return (_HINTS.get(O.op_key(op_)) or ['ok', 3000])[1]
+        while sum(_h(o) for cl in clients for o in cl) > 350000:
+            big = max(((c_i, o_i) for c_i, cl in enumerate(clients) for o_i in range(len(cl))), key=lambda t: _h(clients[t[0]][t[1]]))
+            if len(clients[big[0]]) <= 1:
+                break
+            del clients[big[0]][big[1]]
     return {
         'cmd': 'sim', 'property': 'C20', 'sub': 'S1', 'seed': seed, 'hashseed': hashseed_for(seed),
         'families': [fam] if fam2 is None else [fam, fam2],
